@@ -82,8 +82,16 @@ def rowsU (g : Grid α) : Nat → List α
   | 0 => row0 g
   | I+1 => nextRow (g.cellVal I) (g.borderCol (I+1)) (rowsU g I)
 
+/-- rows `n, n-1, …, 0` of the unpruned matrix (each row computed once from its predecessor) -/
+def rowsUpTo (g : Grid α) : Nat → List (List α)
+  | 0 => [row0 g]
+  | n+1 =>
+    match rowsUpTo g n with
+    | prev :: rest => nextRow (g.cellVal n) (g.borderCol (n+1)) prev :: prev :: rest
+    | [] => []
+
 /-- rows `0..n` of the unpruned matrix -/
-def matU (g : Grid α) (n : Nat) : List (List α) := (List.range (n+1)).map (rowsU g)
+def matU (g : Grid α) (n : Nat) : List (List α) := (rowsUpTo g n).reverse
 
 /-! ### the kernel with early abandoning, as implemented -/
 
@@ -155,9 +163,16 @@ full matrix -/
 def endMin (g : Grid α) (mat : List (List α)) : α :=
   minList ((endCells g).map fun p => cellOf mat p.1 p.2)
 
-/-- specification value: optimum over all admissible complete paths -/
-def dtwSpec (g : Grid α) : α :=
-  minList ((endCells g).map fun p => D g p.1 p.2)
+/-- specification value: optimum over all admissible complete paths (`dtwSpec_eq` in
+Proofs/GridDP.lean: this is `min` over the end cells of the recurrence `D`) -/
+def dtwSpec (g : Grid α) : α := endMin g (matU g g.r)
+
+/-- what C01 says `distance` must return: `⊤` when the length difference exceeds `max_length_diff`,
+otherwise the optimum over admissible complete paths -/
+def distSpec (g : Grid α) (mld : Option Nat) : α :=
+  match mld with
+  | some k => if k < (g.r - g.c) + (g.c - g.r) then top else dtwSpec g
+  | none => dtwSpec g
 
 /-- `if s.adj_max_dist and d > s.adj_max_dist: d = inf` -/
 def finalCheck (m d : α) : α := if ¬ m ≤ 0 ∧ ¬ d ≤ m then top else d
